@@ -143,6 +143,12 @@ func OpenFile(name string, flag int, perm FileMode) (*File, error) {
 			n.data = nil
 		}
 	}
+	if f.MaxOpen > 0 && f.OpenCount >= f.MaxOpen {
+		err = pathErr("open", name, syscall.EMFILE)
+		g.leave(0, err)
+		return nil, err
+	}
+	f.OpenCount++
 	g.leave(0, nil)
 	return &File{f: f, ino: n, name: name, flag: flag}, nil
 }
@@ -315,10 +321,12 @@ func (fl *File) Close() error {
 	if err != nil {
 		if g != nil && !g.refused {
 			fl.closed = true // close(2) releases the descriptor even when it reports an error
+			fl.f.OpenCount--
 		}
 		return err
 	}
 	fl.closed = true
+	fl.f.OpenCount--
 	g.leave(0, nil)
 	return nil
 }
